@@ -48,8 +48,12 @@ class Adapter:
 
     def build(self, cfg):
         nb, gb, rows = cfg["nb"], cfg["gb"], cfg["rows"]
+        words = [frombytes(w) for w in cfg["init"]]
+        # "init" is documented as an iterable of integers: a list, a tuple, or a one-shot iterator / generator
+        shape = (rows + nb + len(words) + sum(words)) % 4
+        init = [words, tuple(words), iter(words), (w for w in words)][shape]
         dut = WishboneSRAM(size=rows * nb // gb, data_width=8 * nb, granularity=8 * gb,
-                           writable=bool(cfg["writable"]), init=[frombytes(w) for w in cfg["init"]])
+                           writable=bool(cfg["writable"]), init=init)
         b = dut.wb_bus
         ins = {s: getattr(b, s) for s in ("cyc", "stb", "we", "adr", "sel", "dat_w")}
         outs = {"ack": b.ack, "dat_r": b.dat_r}
